@@ -12,6 +12,8 @@ mod proc;
 mod cli;
 #[allow(dead_code)]
 mod model;
+#[allow(dead_code)]
+mod gitlab;
 mod props;
 
 use runner::Tier;
